@@ -246,6 +246,10 @@ impl<'a> Searcher<'a> {
         // to refuse a search of other places
         let current_dir = std::env::current_dir().unwrap_or_else(|_| PathBuf::from("."));
 
+        if let Some(expr) = self.query.expr.clone() {
+            Self::check_literals(&expr);
+        }
+
         if let Err(e) = self.results_writer.write_header(&mut std::io::stdout()) {
             if e.kind() == ErrorKind::BrokenPipe {
                 return Ok(());
@@ -2010,6 +2014,67 @@ impl<'a> Searcher<'a> {
         }
 
         Variant::from_bool(false)
+    }
+
+    /// A literal that cannot be read as what its column holds (a regular expression, a date, a
+    /// boolean) is reported before the search starts. The evaluation skips the right side of AND
+    /// and OR for some entries, and which entries there are must not decide whether the mistake is told.
+    fn check_literals(expr: &Expr) {
+        if expr.logical_op.is_some() {
+            for side in [&expr.left, &expr.right].into_iter().flatten() {
+                Self::check_literals(side);
+            }
+            return;
+        }
+
+        let (Some(op), Some(left), Some(right)) = (&expr.op, &expr.left, &expr.right) else {
+            return;
+        };
+        let is_literal = |e: &Expr| {
+            e.val.is_some() && e.field.is_none() && e.function.is_none() && e.left.is_none()
+        };
+        let is_column = |e: &Expr| e.field.is_some() && e.function.is_none() && e.left.is_none();
+        let text_of = |e: &Expr| match e.minus {
+            true => format!("-{}", e.val.clone().unwrap_or_default()),
+            false => e.val.clone().unwrap_or_default(),
+        };
+
+        match op {
+            Op::Rx | Op::NotRx if is_literal(right) => {
+                let text = text_of(right);
+                if Regex::new(&text).is_err() {
+                    error_exit("Incorrect regex expression", &text);
+                }
+            }
+            Op::Like | Op::NotLike if is_literal(right) => {
+                let text = text_of(right);
+                if Regex::new(&convert_like_to_pattern(&text)).is_err() {
+                    error_exit("Incorrect LIKE expression", &text);
+                }
+            }
+            Op::Eq | Op::Ne | Op::Eeq | Op::Ene | Op::Gt | Op::Gte | Op::Lt | Op::Lte => {
+                let (column, literal) = match (is_column(left), is_column(right)) {
+                    (true, false) if is_literal(right) => (left, right),
+                    (false, true) if is_literal(left) => (right, left),
+                    _ => return,
+                };
+                let text = text_of(literal);
+                match &column.field {
+                    Some(field) if field.is_datetime_field() => {
+                        if parse_datetime(&text).is_err() {
+                            error_exit("Can't parse datetime", &text);
+                        }
+                    }
+                    Some(field) if field.is_boolean_field() => {
+                        if str_to_bool(&text).is_none() {
+                            error_exit("Can't parse boolean value", &text);
+                        }
+                    }
+                    _ => {}
+                }
+            }
+            _ => {}
+        }
     }
 
     fn conforms(&mut self, entry: &DirEntry, file_info: &Option<FileInfo>, expr: &Expr) -> bool {
